@@ -1206,12 +1206,25 @@ pub fn build_leb(n: usize, big: usize, size: usize, nop_variant: bool) -> Vec<u8
 /// as `build_leb`; with `extra_unexported` one more, unexported and uncalled function is appended
 /// (the GC pass removes it)
 pub fn build_leb_x(n: usize, big: usize, size: usize, nop_variant: bool, extra_unexported: bool) -> Vec<u8> {
+    build_leb_imp(n, big, size, nop_variant, extra_unexported, 0)
+}
+
+/// as `build_leb_x` with `imports` imported functions (all called, so they survive gc): the number
+/// of *local* functions and the total number of functions can then fall on different sides of a
+/// LEB-length boundary
+pub fn build_leb_imp(n: usize, big: usize, size: usize, nop_variant: bool, extra_unexported: bool, imports: usize) -> Vec<u8> {
     let mut mb = MB::default();
     let t0 = mb.ty(&[], &[]);
+    for k in 0..imports {
+        mb.imports.push(("env".into(), format!("imp{}", k), Desc::Func(t0)));
+    }
     for i in 0..n {
         let marker = 7000 + i as i32;
         let code_len = if i == big { size.saturating_sub(2).max(4) } else { 4 + (i % 3) * 3 };
         let mut code = padded_code(marker, code_len.max(cat(&[&i32_const(marker), &[DROP]]).len()), if nop_variant && i == big { 5.min(code_len / 4) } else { 0 });
+        if i != big && i < imports {
+            code.extend_from_slice(&call(i as u32));
+        }
         code.push(END);
         let f = mb.func(t0, vec![], code);
         mb.export(&format!("f{}", i), 0, f);
@@ -1249,6 +1262,193 @@ pub fn leb_family(tier: Tier) -> Vec<Member> {
                     out.push(Member { family: "leb", coords: format!("n={},big={},size={},nops={}", n, big, s, nopv), wasm: build_leb(n, big, s, nopv) });
                 }
             }
+        }
+    }
+    // local count and total count on different sides of the 1/2-byte LEB boundary
+    for (n, imps) in [(126usize, 1usize), (126, 3), (127, 1), (127, 2), (125, 3)] {
+        out.push(Member { family: "leb", coords: format!("n={},imports={},size=8", n, imps), wasm: build_leb_imp(n, n - 1, 8, false, false, imps) });
+    }
+    out
+}
+
+// ------------------------------------------------------------------------------------------
+// idshift: entity ids shifted by padding (hash / id-order dependent behaviour)
+// ------------------------------------------------------------------------------------------
+
+/// Function 0 has `pad` used i32 locals (it consumes `pad`+1 local ids before function 1 is
+/// parsed); function 1 uses three i32 and two i64 locals, distinguishably and in an order that is
+/// neither declaration order nor reverse.
+pub fn build_idshift(pad: usize) -> Vec<u8> {
+    let mut mb = MB::default();
+    let t1 = mb.ty(&[I32], &[I32]);
+    let mut code = cat(&[&i32_const(8000), &[DROP]]);
+    for k in 0..pad {
+        code.extend_from_slice(&cat(&[&local_get(0), &i32_const(k as i32), &[0x6a], &local_set(1 + k as u32)]));
+    }
+    for k in 0..pad {
+        code.extend_from_slice(&cat(&[&local_get(1 + k as u32), &[DROP]]));
+    }
+    code.extend_from_slice(&local_get(0));
+    code.push(END);
+    let f0 = mb.func(t1, if pad > 0 { vec![(pad as u32, I32)] } else { vec![] }, code);
+    // subject: locals 1,2,3 : i32 ; 4,5 : i64
+    let s = cat(&[
+        &i32_const(8001),
+        &[DROP],
+        &local_get(0), &i32_const(2), &[0x6a], &local_set(3),      // l3 = x + 2
+        &local_get(0), &i32_const(10), &[0x6c], &local_set(1),     // l1 = x * 10
+        &local_get(0), &[0xac], &local_set(5),                     // l5 = i64(x)
+        &local_get(0), &i32_const(1), &[0x6a], &local_set(2),      // l2 = x + 1
+        &local_get(5), &i64_const(3), &[0x7e], &local_set(4),      // l4 = l5 * 3
+        &local_get(1), &local_get(2), &i32_const(2), &[0x6c], &[0x6a],          // l1 + 2*l2
+        &local_get(3), &i32_const(3), &[0x6c], &[0x6a],                         // + 3*l3
+        &local_get(4), &[0xa7], &[0x6a],                                        // + i32(l4)
+        &[END],
+    ]);
+    let f1 = mb.func(t1, vec![(3, I32), (2, I64)], s);
+    mb.export("pad", 0, f0);
+    mb.export("subject", 0, f1);
+    mb.build()
+}
+
+pub fn idshift_family() -> Vec<Member> {
+    (0..=24).map(|p| Member { family: "idshift", coords: format!("pad={}", p), wasm: build_idshift(p) }).collect()
+}
+
+// ------------------------------------------------------------------------------------------
+// ctrl(k): every forest of block / loop / if / if-else constructs with at most k constructs
+// ------------------------------------------------------------------------------------------
+
+#[derive(Clone, Debug)]
+pub enum Ct {
+    Block(Vec<Ct>),
+    Loop(Vec<Ct>),
+    If(Vec<Ct>),
+    IfElse(Vec<Ct>, Vec<Ct>),
+}
+
+/// all forests with exactly n constructs
+pub fn forests(n: usize, memo: &mut Vec<Option<Vec<Vec<Ct>>>>) -> Vec<Vec<Ct>> {
+    if let Some(Some(v)) = memo.get(n) {
+        return v.clone();
+    }
+    let mut out = vec![];
+    if n == 0 {
+        out.push(vec![]);
+    } else {
+        // first tree has m constructs, the rest n-m
+        for m in 1..=n {
+            let firsts = trees(m, memo);
+            let rests = forests(n - m, memo);
+            for f in &firsts {
+                for r in &rests {
+                    let mut v = vec![f.clone()];
+                    v.extend(r.iter().cloned());
+                    out.push(v);
+                }
+            }
+        }
+    }
+    if memo.len() <= n {
+        memo.resize(n + 1, None);
+    }
+    memo[n] = Some(out.clone());
+    out
+}
+fn trees(n: usize, memo: &mut Vec<Option<Vec<Vec<Ct>>>>) -> Vec<Ct> {
+    let mut out = vec![];
+    for inner in forests(n - 1, memo) {
+        out.push(Ct::Block(inner.clone()));
+        out.push(Ct::Loop(inner.clone()));
+        out.push(Ct::If(inner));
+    }
+    for a in 0..n {
+        let b = n - 1 - a;
+        let fa = forests(a, memo);
+        let fb = forests(b, memo);
+        for x in &fa {
+            for y in &fb {
+                out.push(Ct::IfElse(x.clone(), y.clone()));
+            }
+        }
+    }
+    out
+}
+
+fn ctrl_code(forest: &[Ct], next: &mut i32, depth: usize, out: &mut Vec<u8>) {
+    // log(id) before and after every construct, conditions from alternating parameter bits
+    let log = |id: i32, out: &mut Vec<u8>| {
+        out.extend_from_slice(&cat(&[&i32_const(id), &call(0), &[DROP]]));
+    };
+    for t in forest {
+        *next += 1;
+        let id = *next;
+        let cond = |out: &mut Vec<u8>| {
+            out.extend_from_slice(&cat(&[&local_get((id % 2) as u32), &i32_const(1 << (id % 3)), &[0x71]])); // i32.and
+        };
+        log(id * 10, out);
+        match t {
+            Ct::Block(inner) => {
+                out.extend_from_slice(&[0x02, 0x40]);
+                // conditional early exit from the block
+                cond(out);
+                out.extend_from_slice(&[0x0d, 0x00]);
+                log(id * 10 + 1, out);
+                ctrl_code(inner, next, depth + 1, out);
+                out.push(END);
+            }
+            Ct::Loop(inner) => {
+                out.extend_from_slice(&[0x03, 0x40]);
+                log(id * 10 + 1, out);
+                ctrl_code(inner, next, depth + 1, out);
+                // counter-guarded back edge (counter local 2 is shared: every member terminates)
+                out.extend_from_slice(&cat(&[&local_get(2), &i32_const(1), &[0x6a], &local_tee(2), &i32_const(3), &[0x49], &[0x0d, 0x00]]));
+                out.push(END);
+            }
+            Ct::If(inner) => {
+                cond(out);
+                out.extend_from_slice(&[0x04, 0x40]);
+                log(id * 10 + 1, out);
+                ctrl_code(inner, next, depth + 1, out);
+                out.push(END);
+            }
+            Ct::IfElse(a, b) => {
+                cond(out);
+                out.extend_from_slice(&[0x04, 0x40]);
+                log(id * 10 + 1, out);
+                ctrl_code(a, next, depth + 1, out);
+                out.push(0x05);
+                log(id * 10 + 2, out);
+                ctrl_code(b, next, depth + 1, out);
+                out.push(END);
+            }
+        }
+        log(id * 10 + 3, out);
+    }
+}
+
+pub fn build_ctrl(forest: &[Ct]) -> Vec<u8> {
+    let mut mb = MB::default();
+    let t0 = mb.ty(&[I32], &[I32]);
+    let t1 = mb.ty(&[I32, I32], &[I32]);
+    mb.imports.push(("env".into(), "log".into(), Desc::Func(t0)));
+    let mut code = cat(&[&i32_const(8100), &[DROP]]);
+    let mut next = 0;
+    ctrl_code(forest, &mut next, 0, &mut code);
+    code.extend_from_slice(&local_get(2));
+    code.push(END);
+    let f = mb.func(t1, vec![(1, I32)], code);
+    mb.export("f", 0, f);
+    mb.build()
+}
+
+pub fn ctrl_family(tier: Tier) -> Vec<Member> {
+    let k = if tier == Tier::Quick { 3 } else { 4 };
+    let mut memo = vec![];
+    let mut out = vec![];
+    for n in 0..=k {
+        for (i, f) in forests(n, &mut memo).into_iter().enumerate() {
+            out.push(Member { family: "ctrl", coords: format!("n={} #{} {:?}", n, i, f).chars().take(160).collect(), wasm: build_ctrl(&f) });
         }
     }
     out
